@@ -1,6 +1,7 @@
 import ElexModel.Core.Gauss
 import ElexModel.Gen.C15
 import ElexModel.Core.MathUtils
+import ElexModel.Props.C04
 import ElexModel.Lemmas.Num
 import Mathlib.Data.Rat.Defs
 import Mathlib.Tactic.Linarith
@@ -382,5 +383,219 @@ example : wmedian [(3, 1/4), (1, 1/2), (2, 1/4)] = some (3/2) := by decide +kern
 example : wmedian [(1, 3/4), (2, 1/4)] = some 1 := by decide +kernel                   -- the smallest value alone exceeds ½
 example : wmedian [(1, 1/2), (2, 0), (3, 1/2)] = some (5/2) := by decide +kernel       -- the *last* running weight ≤ ½ counts
 example : inflate [1, 1, 2] = 6 / 16 := by decide +kernel
+
+end ElexModel.MathUtils
+
+/-! ### `weighted_median` returns a weighted median -/
+
+namespace ElexModel.MathUtils
+open ElexModel ElexModel.Conformal
+
+/-- weight of the values strictly below / strictly above `m` -/
+def wLt' (m : ℚ) : List (ℚ × ℚ) → ℚ
+  | [] => 0
+  | (x, w) :: t => (if x < m then w else 0) + wLt' m t
+def wGt' (m : ℚ) : List (ℚ × ℚ) → ℚ
+  | [] => 0
+  | (x, w) :: t => (if m < x then w else 0) + wGt' m t
+
+theorem wLt'_le_wTot (m : ℚ) (l : List (ℚ × ℚ)) (hw : ∀ p ∈ l, 0 ≤ p.2) : wLt' m l ≤ wTot l := by
+  induction l with
+  | nil => simp [wLt', wTot]
+  | cons p t ih =>
+    obtain ⟨x, w⟩ := p
+    have := ih (fun q hq => hw q (List.mem_cons_of_mem _ hq))
+    have hw0 : 0 ≤ w := hw (x, w) (by simp)
+    simp only [wLt', wTot]
+    split <;> linarith
+
+theorem wGt'_le_wTot (m : ℚ) (l : List (ℚ × ℚ)) (hw : ∀ p ∈ l, 0 ≤ p.2) : wGt' m l ≤ wTot l := by
+  induction l with
+  | nil => simp [wGt', wTot]
+  | cons p t ih =>
+    obtain ⟨x, w⟩ := p
+    have := ih (fun q hq => hw q (List.mem_cons_of_mem _ hq))
+    have hw0 : 0 ≤ w := hw (x, w) (by simp)
+    simp only [wGt', wTot]
+    split <;> linarith
+
+theorem wLt'_zero_of_ge (m : ℚ) (l : List (ℚ × ℚ)) (h : ∀ p ∈ l, m ≤ p.1) : wLt' m l = 0 := by
+  induction l with
+  | nil => rfl
+  | cons p t ih =>
+    obtain ⟨x, w⟩ := p
+    have hx : ¬ x < m := not_lt.mpr (h (x, w) (by simp))
+    simp [wLt', hx, ih (fun q hq => h q (List.mem_cons_of_mem _ hq))]
+
+theorem wGt'_zero_of_le (m : ℚ) (l : List (ℚ × ℚ)) (h : ∀ p ∈ l, p.1 ≤ m) : wGt' m l = 0 := by
+  induction l with
+  | nil => rfl
+  | cons p t ih =>
+    obtain ⟨x, w⟩ := p
+    have hx : ¬ m < x := not_lt.mpr (h (x, w) (by simp))
+    simp [wGt', hx, ih (fun q hq => h q (List.mem_cons_of_mem _ hq))]
+
+/-- specification of `lastHalf` on a sorted list with non-negative weights: the list splits at the selected element; everything
+    up to and including it weighs `a − acc ≤ 1/2 − acc`, and with the next element the running weight exceeds one half -/
+theorem lastHalf_spec (acc : ℚ) (s : List (ℚ × ℚ)) (hw : ∀ p ∈ s, 0 ≤ p.2) (x a : ℚ) (onx : Option ℚ)
+    (h : lastHalf acc s = some (x, a, onx)) :
+    ∃ pre w post, s = pre ++ (x, w) :: post ∧ a = acc + wTot pre + w ∧ a ≤ 1/2 ∧ onx = post.head?.map Prod.fst ∧
+      (∀ y wy rest, post = (y, wy) :: rest → 1/2 < a + wy) := by
+  induction s generalizing acc with
+  | nil => simp [lastHalf] at h
+  | cons p t ih =>
+    obtain ⟨x', w'⟩ := p
+    have hwt : ∀ p ∈ t, 0 ≤ p.2 := fun q hq => hw q (List.mem_cons_of_mem _ hq)
+    unfold lastHalf at h
+    cases hrec : lastHalf (acc + w') t with
+    | some r =>
+      rw [hrec] at h
+      simp only [Option.some.injEq] at h
+      subst h
+      obtain ⟨pre, w, post, hs, ha, hle, hnx, hnext⟩ := ih (acc + w') hwt hrec
+      exact ⟨(x', w') :: pre, w, post, by rw [hs]; rfl, by rw [ha]; simp [wTot]; ring, hle, hnx, hnext⟩
+    | none =>
+      rw [hrec] at h
+      by_cases hc : acc + w' ≤ 1/2
+      · simp only [hc, if_true, Option.some.injEq, Prod.mk.injEq] at h
+        obtain ⟨rfl, rfl, rfl⟩ := h
+        refine ⟨[], w', t, rfl, by simp [wTot], hc, rfl, ?_⟩
+        intro y wy rest hpost
+        subst hpost
+        -- the recursive call on (y, wy) :: rest returned none, so acc + w' + wy > 1/2
+        unfold lastHalf at hrec
+        cases hrec2 : lastHalf (acc + w' + wy) rest with
+        | some r => rw [hrec2] at hrec; simp at hrec
+        | none =>
+          rw [hrec2] at hrec
+          by_contra hcon
+          have : acc + w' + wy ≤ 1/2 := not_lt.mp hcon
+          simp at hrec
+          linarith
+      · rw [if_neg hc] at h; exact absurd h (by simp)
+
+theorem wLt'_append (m : ℚ) (a b : List (ℚ × ℚ)) : wLt' m (a ++ b) = wLt' m a + wLt' m b := by
+  induction a with
+  | nil => simp [wLt']
+  | cons p t ih => obtain ⟨x, w⟩ := p; simp only [List.cons_append, wLt', ih]; ring
+
+theorem wGt'_append (m : ℚ) (a b : List (ℚ × ℚ)) : wGt' m (a ++ b) = wGt' m a + wGt' m b := by
+  induction a with
+  | nil => simp [wGt']
+  | cons p t ih => obtain ⟨x, w⟩ := p; simp only [List.cons_append, wGt', ih]; ring
+
+theorem wTot_append' (a b : List (ℚ × ℚ)) : wTot (a ++ b) = wTot a + wTot b := by
+  induction a with
+  | nil => simp [wTot]
+  | cons p t ih => obtain ⟨x, w⟩ := p; simp only [List.cons_append, wTot, ih]; ring
+
+/-- **`weighted_median` returns a weighted median**: for values sorted increasingly with non-negative weights that sum to one, at
+    most half of the weight lies strictly below the result and at most half strictly above it — in each of its three branches (the
+    smallest value alone outweighs the rest; a running weight of exactly one half: the midpoint; otherwise the next value) -/
+theorem wmedianSorted_is_median (s : List (ℚ × ℚ)) (hs : s.Pairwise (fun a b => a.1 ≤ b.1)) (hw : ∀ p ∈ s, 0 ≤ p.2)
+    (hsum : wTot s = 1) (m : ℚ) (h : wmedianSorted s = some m) : wLt' m s ≤ 1/2 ∧ wGt' m s ≤ 1/2 := by
+  cases s with
+  | nil => simp [wmedianSorted] at h
+  | cons p t =>
+    obtain ⟨x0, w0⟩ := p
+    have hs' := List.pairwise_cons.mp hs
+    have hwt : ∀ p ∈ t, 0 ≤ p.2 := fun q hq => hw q (List.mem_cons_of_mem _ hq)
+    unfold wmedianSorted at h
+    dsimp only at h
+    by_cases h0 : 1/2 < w0
+    · simp only [h0, if_true, Option.some.injEq] at h
+      subst h
+      have hge : ∀ q ∈ t, x0 ≤ q.1 := fun q hq => hs'.1 q hq
+      have h1 : wLt' x0 t = 0 := wLt'_zero_of_ge x0 t hge
+      have h2 := wGt'_le_wTot x0 t hwt
+      simp only [wTot] at hsum
+      simp only [wLt', wGt', lt_irrefl, if_false, h1]
+      constructor <;> linarith
+    · rw [if_neg h0] at h
+      cases hl : lastHalf 0 ((x0, w0) :: t) with
+      | none => rw [hl] at h; simp at h
+      | some r =>
+        obtain ⟨x, a, onx⟩ := r
+        rw [hl] at h
+        obtain ⟨pre, w, post, hsplit, ha, hle, hnx, hnext⟩ := lastHalf_spec 0 _ hw x a onx hl
+        cases post with
+        | nil => subst hnx; simp at h
+        | cons q rest =>
+          obtain ⟨nx, wy⟩ := q
+          have hnx' : onx = some nx := by rw [hnx]; rfl
+          subst hnx'
+          have hgt := hnext nx wy rest rfl
+          -- order facts from sortedness
+          rw [hsplit] at hs hw hsum
+          rw [hsplit]
+          have hsorted := List.pairwise_append.mp hs
+          have hpre_le : ∀ q ∈ pre, q.1 ≤ x := fun q hq => hsorted.2.2 q hq (x, w) (by simp)
+          have hmid := List.pairwise_cons.mp hsorted.2.1
+          have hx_nx : x ≤ nx := hmid.1 (nx, wy) (by simp)
+          have hpost := List.pairwise_cons.mp hmid.2
+          have hrest_ge : ∀ q ∈ rest, nx ≤ q.1 := fun q hq => hpost.1 q hq
+          have hwpre : ∀ q ∈ pre, 0 ≤ q.2 := fun q hq => hw q (by simp [hq])
+          have hwrest : ∀ q ∈ rest, 0 ≤ q.2 := fun q hq => hw q (by simp [hq])
+          have hw_x : 0 ≤ w := hw (x, w) (by simp)
+          have hw_y : 0 ≤ wy := hw (nx, wy) (by simp)
+          simp only [wTot_append', wTot] at hsum
+          simp only [zero_add] at ha
+          have key : ∀ m', x ≤ m' → m' ≤ nx →
+              wLt' m' (pre ++ (x, w) :: (nx, wy) :: rest) ≤ a ∧
+              wGt' m' (pre ++ (x, w) :: (nx, wy) :: rest) ≤ (if m' < nx then wy else 0) + wTot rest := by
+            intro m' h1 h2
+            rw [wLt'_append, wGt'_append]
+            have e1 : wGt' m' pre = 0 := wGt'_zero_of_le m' pre (fun q hq => le_trans (hpre_le q hq) h1)
+            have e2 : wLt' m' rest = 0 := wLt'_zero_of_ge m' rest (fun q hq => le_trans h2 (hrest_ge q hq))
+            have e3 := wLt'_le_wTot m' pre hwpre
+            have e4 := wGt'_le_wTot m' rest hwrest
+            simp only [wLt', wGt', e1, e2]
+            have hx1 : ¬ m' < x := not_lt.mpr h1
+            have hn1 : ¬ nx < m' := not_lt.mpr h2
+            simp only [hx1, hn1, if_false]
+            constructor
+            · split <;> linarith
+            · linarith
+          by_cases hhalf : a = 1/2
+          · simp only [hhalf, if_true, Option.some.injEq] at h
+            subst h
+            have := key ((x + nx) / 2) (by linarith) (by linarith)
+            constructor
+            · linarith [this.1]
+            · have h3 := this.2
+              split at h3 <;> linarith
+          · simp only [hhalf, if_false, Option.some.injEq] at h
+            subst h
+            have := key nx hx_nx le_rfl
+            constructor
+            · linarith [this.1]
+            · have h3 := this.2
+              simp only [lt_irrefl, if_false] at h3
+              linarith
+
+theorem wLt'_perm (m : ℚ) {l₁ l₂ : List (ℚ × ℚ)} (h : l₁.Perm l₂) : wLt' m l₁ = wLt' m l₂ := by
+  induction h with
+  | nil => rfl
+  | cons p _ ih => obtain ⟨x, w⟩ := p; simp only [wLt', ih]
+  | swap p q l => obtain ⟨x, w⟩ := p; obtain ⟨y, v⟩ := q; simp only [wLt']; ring
+  | trans _ _ ih₁ ih₂ => exact ih₁.trans ih₂
+
+theorem wGt'_perm (m : ℚ) {l₁ l₂ : List (ℚ × ℚ)} (h : l₁.Perm l₂) : wGt' m l₁ = wGt' m l₂ := by
+  induction h with
+  | nil => rfl
+  | cons p _ ih => obtain ⟨x, w⟩ := p; simp only [wGt', ih]
+  | swap p q l => obtain ⟨x, w⟩ := p; obtain ⟨y, v⟩ := q; simp only [wGt']; ring
+  | trans _ _ ih₁ ih₂ => exact ih₁.trans ih₂
+
+/-- **the centre of a calibration group is a weighted median of its bounds**: for any values with non-negative weights that sum to
+    one (the gaussian fit passes baseline weights normalised by their sum), in whatever order they are given -/
+theorem wmedian_is_median (xw : List (ℚ × ℚ)) (hw : ∀ p ∈ xw, 0 ≤ p.2) (hsum : wTot xw = 1) (m : ℚ)
+    (h : wmedian xw = some m) : wLt' m xw ≤ 1/2 ∧ wGt' m xw ≤ 1/2 := by
+  unfold wmedian at h
+  have hp := sortS_perm xw
+  have := wmedianSorted_is_median (sortS xw) (sortS_sorted xw) (fun p hp' => hw p (hp.mem_iff.mp hp'))
+    (by rw [wTot_perm hp]; exact hsum) m h
+  rw [wLt'_perm m hp, wGt'_perm m hp] at this
+  exact this
 
 end ElexModel.MathUtils
